@@ -5,6 +5,7 @@ import (
 	"bytes"
 	"encoding/json"
 	"fmt"
+	"github.com/gorilla/websocket"
 	"io"
 	"net/http"
 	"sort"
@@ -34,6 +35,9 @@ type countingBackend struct {
 	perConn        map[string]int
 	// DropConns (sabotage backend only) closes every connection accepted so far
 	DropConns func()
+	// RejectWS, if set and true for a token, makes the backend turn a websocket
+	// handshake for that token down with 403 (it is counted like any request)
+	RejectWS func(tok string) bool
 }
 
 func startCountingBackend(w *World) *countingBackend {
@@ -45,6 +49,26 @@ func startCountingBackend(w *World) *countingBackend {
 		}
 		http.Serve(l, http.HandlerFunc(func(rw http.ResponseWriter, r *http.Request) {
 			tok := strings.TrimPrefix(r.URL.Path, "/r/")
+			if websocket.IsWebSocketUpgrade(r) {
+				cb.mu.Lock()
+				cb.Seen[tok]++
+				cb.mu.Unlock()
+				if cb.RejectWS != nil && cb.RejectWS(tok) {
+					w.K.Count("fault.backend_rejects_websocket_handshake")
+					http.Error(rw, "no websockets here", 403)
+					return
+				}
+				up := websocket.Upgrader{CheckOrigin: func(*http.Request) bool { return true }}
+				if c, err := up.Upgrade(rw, r, nil); err == nil {
+					defer c.Close()
+					for {
+						if _, _, err := c.ReadMessage(); err != nil {
+							return
+						}
+					}
+				}
+				return
+			}
 			io.Copy(io.Discard, r.Body)
 			cb.mu.Lock()
 			cb.Seen[tok]++
@@ -103,8 +127,18 @@ func worldC04(w *World) {
 	fp := NewFakeProxy(w)
 	ids := make([]string, m)
 	bodylessPost := map[string]bool{}
+	// with the websocket shim mounted, some of the requests open shimmed websockets;
+	// the backend turns half of those handshakes down
+	shimOpens := !window && !faulty && t.Rare(1, 4, "shimopens")
+	shimOpen := map[string]bool{}
 	for i := range ids {
 		ids[i] = fmt.Sprintf("id%04d", i)
+		if shimOpens && t.Rare(1, 2, "isopen") {
+			shimOpen[ids[i]] = true
+			fp.AddRequest(ids[i], serialiseRequest("POST", "/shim/open", "example.test", http.Header{"X-Token": {ids[i]}}, []byte("ws://example.test/r/"+ids[i])), "")
+			w.Probe("shim_open_requests_among_the_listed_ids")
+			continue
+		}
 		method := []string{"GET", "POST"}[t.Choice(2, "method")]
 		var body []byte
 		if method == "POST" {
@@ -285,7 +319,12 @@ func worldC04(w *World) {
 		}
 		return []time.Duration{0, 0, 5 * time.Millisecond, 700 * time.Millisecond}[int(tok[len(tok)-1]-'0')%4]
 	}
-	startAgent(w)
+	cb.RejectWS = func(tok string) bool { return shimOpen[tok] && int(tok[len(tok)-1]-'0')%2 == 0 }
+	if shimOpens {
+		startAgent(w, "-shim-path=shim")
+	} else {
+		startAgent(w)
+	}
 	w.K.Spawn("controller", func() {
 		// wait until the script is exhausted and things have settled
 		for {
